@@ -390,7 +390,7 @@ fn fn3(r: evenio::event::ReceiverMut<G1>, s: Sender<(G0, Spawn)>) {
     trace(format!("h fn3 G1(s{})", r.event.0.serial));
     let ent = r.event.0.ent;
     if take_budget() {
-        s.send(G0(Pay { serial: fresh_e(), ent }));
+        s.send(G0(Pay::new(fresh_e(), ent)));
     }
     let owned: G1 = evenio::event::EventMut::take(r.event);
     trace(" took".into());
@@ -422,6 +422,8 @@ fn reset_thread_state() {
     ESERIAL.with(|c| c.set(1));
     CSERIAL.with(|c| c.set(1));
     ARENA_NO.with(|c| c.set(0));
+    LIVE_E.with(|c| c.set(0));
+    LIVE_C.with(|c| *c.borrow_mut() = [0; 6]);
 }
 
 fn classify_panic(p: &(dyn std::any::Any + Send)) -> String {
@@ -575,7 +577,7 @@ impl Exec {
             }
             ["send", g] => {
                 let n: usize = g.strip_prefix('G').and_then(|d| d.parse().ok()).ok_or_else(bad)?;
-                let p = Pay { serial: fresh_e(), ent: EntityId::NULL };
+                let p = Pay::new(fresh_e(), EntityId::NULL);
                 match n {
                     0 => w.send(G0(p)),
                     1 => w.send(G1(p)),
@@ -587,7 +589,7 @@ impl Exec {
             ["sendto", t, e] => {
                 let n: usize = t.strip_prefix('T').and_then(|d| d.parse().ok()).ok_or_else(bad)?;
                 let id = ord(e).ok_or_else(bad)?;
-                let p = Pay { serial: fresh_e(), ent: EntityId::NULL };
+                let p = Pay::new(fresh_e(), EntityId::NULL);
                 match n {
                     0 => w.send_to(id, T0(p)),
                     1 => w.send_to(id, T1(p)),
@@ -915,6 +917,9 @@ fn main() {
         let mut cd = CDROPS.with(|t| t.borrow().clone());
         cd.sort();
         lines.push(format!("cd {}", cd.join(" ")).trim_end().to_string());
+        // values alive after the operation returned (harness-side ledger; judged directly, not compared with the model)
+        let lc = LIVE_C.with(|l| *l.borrow());
+        lines.push(format!("live E={} K1={} K3={} K4={}", LIVE_E.with(|l| l.get()), lc[1], lc[3], lc[4]));
         if e.world.is_some() {
             e.note_removed(&before);
             lines.push(e.render_store());
